@@ -3,6 +3,7 @@ package main
 import (
 	"context"
 	"fmt"
+	jump "github.com/dgryski/go-jump"
 	"math/rand"
 	"net/url"
 	"sort"
@@ -22,12 +23,12 @@ func init() {
 		runC11)
 	register("c12", "round-robin and weighted round-robin: all weight vectors n<=4, weights<=6 (thorough; sampled in quick) plus random larger vectors; "+
 		"3*T selections per selector, every window offset checked for exact counts and periodicity; equal weights compared with plain round-robin; "+
-		"updates changing membership or weights, windows checked from the first selection after the update; every run replayed on the Lean model; "+
+		"updates changing membership or weights (also a second update that passes the same map instance, edited in place), windows checked from the first selection after the update; every run replayed on the Lean model; "+
 		"non-trivial = at least two servers; distinct = distinct weight history",
 		runC12)
 	register("c13", "consistent hash: server sets of size 1..8, 200 keys each; repeated selection, re-announcement of the identical set, "+
 		"pairs of independently constructed selectors (different map iteration orders), add-only update sequences (key keeps its server or moves to a new one), "+
-		"mixed add/remove histories replayed on the Lean doublejump model; non-trivial = set of at least 2 servers; distinct = distinct history line",
+		"mixed add/remove histories replayed on the Lean doublejump model; the jump-hash contract (bucket < n; n+1 keeps the bucket or moves to the new one) checked on the real jump.Hash; non-trivial = set of at least 2 servers; distinct = distinct history line",
 		runC13)
 }
 
@@ -568,6 +569,39 @@ func runC13(o *Out, r *rand.Rand) {
 	for it := 0; it < n; it++ {
 		c13History(o, r)
 	}
+	c13JumpContract(o, r)
+}
+
+// c13JumpContract: the one hypothesis of the monotonicity theorems (Sel.JumpOK) checked on the
+// real jump consistent hash the doublejump holder calls: the bucket is below n, and one more
+// bucket keeps a key where it is or moves it to the new bucket.
+func c13JumpContract(o *Out, r *rand.Rand) {
+	keys := 400
+	if thorough() {
+		keys = 6000
+	}
+	for i := 0; i < keys; i++ {
+		key := r.Uint64()
+		if i < 8 {
+			key = []uint64{0, 1, 2, ^uint64(0), 1 << 63, 1<<63 - 1, 0xc6a4a7935bd1e995, 42}[i]
+		}
+		prev := jump.Hash(key, 1)
+		if prev != 0 {
+			o.Violate("c13.jump-contract", fmt.Sprintf("jump.Hash(%d, 1) = %d", key, prev), map[string]any{"key": key, "n": 1})
+			return
+		}
+		for n := 1; n <= 96; n++ {
+			next := jump.Hash(key, n+1)
+			if next < 0 || int(next) > n || (next != prev && int(next) != n) {
+				o.Violate("c13.jump-contract", fmt.Sprintf("jump.Hash(%d, %d) = %d but jump.Hash(%d, %d) = %d: neither the same bucket nor the new one", key, n, prev, key, n+1, next),
+					map[string]any{"key": key, "n": n})
+				return
+			}
+			prev = next
+		}
+		o.Eval(fmt.Sprintf("jump-contract key=%d n=1..97", key), true)
+	}
+	o.Count("c13.jump-contract.keys")
 }
 
 func c13History(o *Out, r *rand.Rand) {
